@@ -5,6 +5,7 @@ import (
 	"encoding/json"
 	"errors"
 	"fmt"
+	"strconv"
 	"strings"
 	"testing"
 
@@ -24,6 +25,19 @@ type Case struct {
 	Patch uint64 `json:"patch,omitempty"`
 	Pre   vkit.B `json:"pre,omitempty"`
 	Build vkit.B `json:"build,omitempty"`
+	// Limit: sem.MaxInputLength for the case: 0 = package default (1024), -1 = disabled, n > 0 = n.
+	Limit int `json:"max_input_length,omitempty"`
+}
+
+func setLimit(l int) func() {
+	old := sem.MaxInputLength
+	switch {
+	case l < 0:
+		sem.MaxInputLength = 0
+	case l > 0:
+		sem.MaxInputLength = l
+	}
+	return func() { sem.MaxInputLength = old }
 }
 
 type verdict struct {
@@ -126,6 +140,9 @@ var entries = []entry{
 	{"DefaultParser[[]byte](0)", "any", true, func(s string, w *vkit.W) (sem.Ver, error) { return sem.DefaultParser(w.Scratch(s), 0) }},
 	{"DefaultParser[string](RuleDisableTag)", "version", false, func(s string, _ *vkit.W) (sem.Ver, error) { return sem.DefaultParser(s, sem.RuleDisableTag) }},
 	{"DefaultParser[[]byte](RuleDisableTag)", "version", true, func(s string, w *vkit.W) (sem.Ver, error) { return sem.DefaultParser(w.Scratch(s), sem.RuleDisableTag) }},
+	{"DefaultParser[string](RuleDisableTag|undefined bits)", "version", false, func(s string, _ *vkit.W) (sem.Ver, error) { return sem.DefaultParser(s, sem.RuleDisableTag|1<<8|1<<1) }},
+	{"DefaultParser[[]byte](all bits)", "version", true, func(s string, w *vkit.W) (sem.Ver, error) { return sem.DefaultParser(w.Scratch(s), ^sem.Rule(0)) }},
+	{"DefaultParser[string](undefined bits only)", "any", false, func(s string, _ *vkit.W) (sem.Ver, error) { return sem.DefaultParser(s, ^sem.RuleDisableTag) }},
 	{"Parse[named string]", "any", false, func(s string, _ *vkit.W) (sem.Ver, error) { return sem.Parse(namedS(s)) }},
 	{"ParseTag[named []byte]", "tag", true, func(s string, w *vkit.W) (sem.Ver, error) { return sem.ParseTag(namedB(w.Scratch(s))) }},
 	{"DefaultParser[named []byte](RuleDisableTag)", "version", true, func(s string, w *vkit.W) (sem.Ver, error) {
@@ -294,11 +311,15 @@ func nearValid(s string) bool {
 func TestCheck(t *testing.T) {
 	r := vkit.Start("C03")
 	defer r.Finish(t)
+	if r.ReplayCold() {
+		return
+	}
 	if r.Replay != "" {
 		var c Case
 		if err := r.LoadReplay(&c); err != nil {
 			t.Fatalf("replay: %v", err)
 		}
+		defer setLimit(c.Limit)()
 		r.Serial(func(w *vkit.W) { judge(c, w); w.Eval(true) })
 		return
 	}
@@ -310,13 +331,14 @@ func TestCheck(t *testing.T) {
 		if err := json.Unmarshal(raw, &c); err != nil {
 			return err
 		}
+		defer setLimit(c.Limit)()
 		judge(c, w)
 		w.Eval(true)
 		return nil
 	})
 
 	L := r.Pick(7, 9)
-	r.Phase(fmt.Sprintf("A: every string over {0,1,9,a,Z,-,.,+,v} up to length %d x 14 entry points", L), func() {
+	r.Phase(fmt.Sprintf("A: every string over {0,1,9,a,Z,-,.,+,v} up to length %d x 17 entry points", L), func() {
 		for n := 0; n <= L; n++ {
 			total := int64(1)
 			for i := 0; i < n; i++ {
@@ -344,7 +366,7 @@ func TestCheck(t *testing.T) {
 			})
 		}
 	})
-	r.Exhaustive(fmt.Sprintf("every string over {0,1,9,a,Z,-,.,+,v} of length 0..%d through all 14 parser entry points", L))
+	r.Exhaustive(fmt.Sprintf("every string over {0,1,9,a,Z,-,.,+,v} of length 0..%d through all 17 parser entry points", L))
 
 	// Phase A2: every one-byte substitution and insertion (all 256 byte values) in every accepted text of the length<=7 universe
 	// and in a set of longer accepted texts: characters outside the enumeration alphabet next to valid structure.
@@ -382,6 +404,104 @@ func TestCheck(t *testing.T) {
 						w.EvalRandom(vkit.Hash64(m), true)
 					}
 				}
+			}
+		})
+	})
+
+	// Phase A3: runes that case folding or byte truncation could confuse with identifier characters, inserted into accepted texts.
+	r.Phase("A3: confusable runes (Unicode folds of ASCII letters, runes whose low byte is an identifier character, full-width forms) inserted into accepted texts", func() {
+		bases := []string{"1.2.3-alpha.1+build.5", "v1.0.0-rc.1", "1.0.0+k", "0.0.0-s", "1.0.0-a-b", "v2.0.0-0.3.7+x"}
+		runes := ref.ConfusableRunes("0123456789abcdefghijklmnopqrstuvwxyzABCDEFGHIJKLMNOPQRSTUVWXYZ-.+v")
+		r.Extra("A3_runes", len(runes))
+		r.Parallel(int64(len(runes)), 16, func(w *vkit.W, lo, hi int64) {
+			for i := lo; i < hi; i++ {
+				for _, base := range bases {
+					for pos := 0; pos <= len(base); pos++ {
+						m := base[:pos] + string(runes[i]) + base[pos:]
+						judge(Case{Kind: "text", Text: vkit.B(m)}, w)
+						w.EvalRandom(vkit.Hash64(m), true)
+						if pos < len(base) {
+							m = base[:pos] + string(runes[i]) + base[pos+1:]
+							judge(Case{Kind: "text", Text: vkit.B(m)}, w)
+							w.EvalRandom(vkit.Hash64(m), true)
+						}
+					}
+				}
+			}
+		})
+	})
+
+	// Phase A4: MaxInputLength is a setting. Long versions (around 1024, 2048 and 4096 bytes) under the default, a raised and a
+	// disabled limit; pairs that differ only far behind the default limit must parse to different values.
+	for _, lim := range []int{0, -1, 2100, 64} {
+		lim := lim
+		r.Phase(fmt.Sprintf("A4: long versions around the buffer-size boundaries, MaxInputLength setting %d (0 = default 1024, -1 = disabled)", lim), func() {
+			defer setLimit(lim)()
+			var texts []string
+			for _, n := range []int{50, 57, 58, 59, 63, 64, 65, 127, 128, 129, 255, 256, 257, 511, 512, 513, 1017, 1018, 1019, 1020, 1023, 1024, 1025, 1026, 1100, 2047, 2048, 2049, 2094, 2095, 2096, 4095, 4096, 4097} {
+				for _, shape := range []int{0, 1, 2, 3} {
+					var t string
+					switch shape {
+					case 0:
+						t = "1.0.0-" + strings.Repeat("a", n)
+					case 1:
+						t = "v1.0.0-" + strings.Repeat("a", n/2) + "+" + strings.Repeat("b", n-n/2)
+					case 2:
+						t = "1.0.0-" + strings.Repeat("a.", n/2) + "z"
+					default:
+						t = "1.0.0-" + strings.Repeat("a", n) + "Z" // differs from shape 0 only in its last byte
+					}
+					texts = append(texts, t, t+" ", t+"+", t+".0")
+				}
+			}
+			r.Parallel(int64(len(texts)), 8, func(w *vkit.W, lo, hi int64) {
+				for i := lo; i < hi; i++ {
+					c := Case{Kind: "text", Text: vkit.B(texts[i]), Limit: lim}
+					acc := judge(c, w)
+					w.EvalRandom(vkit.Hash64(texts[i], strconv.Itoa(lim)), true)
+					if acc {
+						w.Class("A4_accepted_long_texts")
+					}
+				}
+			})
+		})
+	}
+
+	// Phase A5: very many distinct valid versions in one process (a parser that remembers earlier inputs by a digest would
+	// confuse two of them sooner or later).
+	nMany := int64(r.Pick(20000000, 200000000))
+	r.Phase(fmt.Sprintf("A5: %d distinct valid versions through Parse[string] / ParseTag[[]byte] in one process", nMany), func() {
+		r.Parallel(nMany, 8192, func(w *vkit.W, lo, hi int64) {
+			buf := make([]byte, 0, 48)
+			for i := lo; i < hi; i++ {
+				ma, mi, pa := uint64(i%211), uint64(i/211%307), uint64(i/(211*307))
+				buf = strconv.AppendUint(buf[:0], ma, 10)
+				buf = append(buf, '.')
+				buf = strconv.AppendUint(buf, mi, 10)
+				buf = append(buf, '.')
+				buf = strconv.AppendUint(buf, pa, 10)
+				text := string(buf)
+				want := sem.Ver{Major: ma, Minor: mi, Patch: pa}
+				got, err := sem.Parse(text)
+				if err != nil || got != want {
+					w.Fail(Case{Kind: "text", Text: vkit.B(text)}, "fields-differ", fmt.Sprintf("Parse(%q) = %+v, %v (after very many other versions were parsed in this process)", text, got, err))
+				}
+				if i%4 == 0 {
+					got, err = sem.ParseTag(w.Scratch("v" + text))
+					if err != nil || got != want {
+						w.Fail(Case{Kind: "text", Text: vkit.B("v" + text)}, "fields-differ", fmt.Sprintf("ParseTag(%q) = %+v, %v", "v"+text, got, err))
+					}
+				}
+				w.Eval(true)
+			}
+		})
+	})
+
+	r.Phase(fmt.Sprintf("A6: %d cold-start scenarios", len(coldScenarios)), func() {
+		r.Serial(func(w *vkit.W) {
+			for _, sc := range coldScenarios {
+				r.RunCold(w, sc, false)
+				w.EvalRandom(vkit.Hash64("cold", sc), true)
 			}
 		})
 	})
@@ -439,7 +559,7 @@ func TestCheck(t *testing.T) {
 func genVersionText(rt *rapid.T) string {
 	num := rapid.OneOf(
 		rapid.StringMatching(`[1-9][0-9]{0,24}`),
-		rapid.SampledFrom([]string{"0", "1", "18446744073709551615", "18446744073709551616", "18446744073709551614", "99999999999999999999", "100000000000000000000", "00", "01", "9223372036854775808"}),
+		rapid.SampledFrom([]string{"2097152", "2097151", "4294967296", "4294967295", "9223372036854775807", "0", "1", "18446744073709551615", "18446744073709551616", "18446744073709551614", "99999999999999999999", "100000000000000000000", "00", "01", "9223372036854775808"}),
 	)
 	ident := rapid.OneOf(rapid.StringMatching(`[0-9a-zA-Z-]{1,8}`), rapid.StringMatching(`[1-9][0-9]{0,24}`), rapid.SampledFrom([]string{"0", "00", "01", "-", "--", "a", "alpha", "rc", "001a"}))
 	var b strings.Builder
